@@ -181,20 +181,28 @@ class Pair:
         return False
 
     # ------------------------------------------------------------------ exploration
-    def explore(self, body, start_bb, holder, max_states=20000, skip_stmts=0):
+    def explore(self, body, start_bb, holder, max_states=20000, skip_stmts=0, came_from=None):
         """Explore from the entry of start_bb with the obligation held by `holder`
         (None = raw, int = local).  Returns (violations, transfers) where
         violations = [(kind, where, path)] and transfers = [(bb, how)]"""
         g = graph(body)
         viol, transfers = [], []
         seen = set()
-        dq = deque([(start_bb, holder, (start_bb,))])
+        dq = deque([(start_bb, holder, ((came_from, start_bb) if came_from is not None else (start_bb,)))])
+        interest = set()
+        for bb_ in range(g.n):
+            t_ = g.term(bb_)
+            if t_["k"] == "drop" and not t_["place"]["p"] and self.unw.drop_may_unwind(body.local_ty(t_["place"]["l"]), body.types):
+                interest.add(t_["place"]["l"])
+        disarmed = set()      # guard locals whose destructor was made a no-op (their drop cannot unwind or release)
         n = 0
         while dq:
             bb, h, path = dq.popleft()
-            if (bb, h) in seen:
+            # what this path knows about the locals whose destructor could unwind: moved out / matched as None
+            pf = self._path_facts(body, path, interest)
+            if (bb, h, pf) in seen:
                 continue
-            seen.add((bb, h))
+            seen.add((bb, h, pf))
             n += 1
             if n > max_states:
                 viol.append(("state-budget", g.where(bb), path))
@@ -233,6 +241,29 @@ class Pair:
                             break
             t = g.term(bb)
             k = t["k"]
+            # disarming the guard: `guard.field.take()` / mem::replace(&mut guard.field, ..) / `guard.field = ..` makes its
+            # destructor a no-op; from here the obligation is held by nobody until a new guard value is built
+            if h is not None and self.is_guard_ty(body.local_ty(h), body.types) and not body.local_ty(h)["s"].startswith("core::option::Option"):
+                refs = set()
+                for j, s in enumerate(g.stmts(bb)):
+                    if n == 1 and j < skip_stmts:
+                        continue
+                    if s["k"] != "assign":
+                        continue
+                    if s["rv"]["k"] == "ref" and s["rv"].get("bk") == "mut" and s["rv"]["place"]["l"] == h and s["rv"]["place"]["p"] and not s["lhs"]["p"]:
+                        refs.add(s["lhs"]["l"])
+                    elif s["lhs"]["l"] == h and s["lhs"]["p"] and s["rv"]["k"] in ("use", "agg") and self._arming_field(body, h, s["lhs"]["p"]):
+                        disarmed.add(h)
+                        h = None
+                        break
+                if h is not None and k == "call" and refs:
+                    c0 = Call(g, bb, t)
+                    if c0.name in ("take", "replace", "swap") and any((a.get("move") or {}).get("l") in refs for a in c0.args):
+                        # continue on the normal edge with nobody holding the obligation
+                        disarmed.add(h)
+                        if c0.target is not None:
+                            dq.append((c0.target, None, path + (c0.target,)))
+                        continue
             if k == "call":
                 c = Call(g, bb, t)
                 if self.is_release(body, c):
@@ -278,7 +309,8 @@ class Pair:
                 if h is not None and pl["l"] == h and pl["p"]:
                     # dropping the field that holds the guard
                     continue
-                noop = ((not pl["p"]) and not g.maybe_init(pl["l"], bb)) or in_observability_macro(t)
+                noop = ((not pl["p"]) and not g.maybe_init(pl["l"], bb)) or in_observability_macro(t) or ((not pl["p"]) and pl["l"] in disarmed) \
+                    or ((not pl["p"]) and (("n", pl["l"]) in pf or ("m", pl["l"]) in pf))
                 for (tgt, kind, _l) in g.succ[bb]:
                     if kind == U and noop:
                         continue        # dropping a moved-out local runs no destructor
@@ -315,6 +347,72 @@ class Pair:
                     continue
                 dq.append((tgt, h, path + (tgt,)))
         return viol, transfers
+
+    def _path_facts(self, body, path, interest):
+        out = set()
+        for l in interest:
+            if self._known_dataless(body, l, path):
+                out.add(("n", l))
+            if self._moved_on_path(body, l, path):
+                out.add(("m", l))
+        return frozenset(out)
+
+    def _known_dataless(self, body, local, path):
+        """along this path the last match on this very local (assigned once) took its `None` edge: its destructor
+        has nothing to drop"""
+        g = graph(body)
+        if len(g.defs.get(local, ())) != 1:
+            return False
+        verdict = False
+        for a, b in zip(path, path[1:]):
+            sw = g.switch(a)
+            if sw is None or sw.kind != "enum" or sw.place is None or sw.place.get("l") != local or sw.place.get("p"):
+                continue
+            verdict = sw.variants.get("None") == b and sw.variants.get("Some") != b
+        return verdict
+
+    def _moved_on_path(self, body, local, path):
+        """along this very path the local's value was moved out (whole-local move) after its last assignment"""
+        g = graph(body)
+        moved = False
+        for bb in path[:-1]:
+            for s in g.stmts(bb):
+                if s["k"] != "assign":
+                    continue
+                rv = s["rv"]
+                ops = [rv["op"]] if rv["k"] in ("use", "cast") else rv.get("ops", []) if rv["k"] == "agg" else []
+                for o in ops:
+                    pl = o.get("move")
+                    if pl is not None and pl["l"] == local and not pl["p"]:
+                        moved = True
+                if s["lhs"]["l"] == local and not s["lhs"]["p"]:
+                    moved = False
+            t = g.term(bb)
+            if t["k"] == "call":
+                for a in t["args"]:
+                    pl = a.get("move")
+                    if pl is not None and pl["l"] == local and not pl["p"]:
+                        moved = True
+                if t["dest"]["l"] == local and not t["dest"]["p"]:
+                    moved = False
+        return moved
+
+    def _arming_field(self, body, h, proj):
+        """assignment to a field of the guard: treated as disarming when the field is an Option or a bool (the
+        usual `armed` flags); other field writes do not change who owns the obligation"""
+        ty = body.local_ty(h)
+        adt = self.facts.adt(ty.get("def") or "")
+        if adt is None:
+            return False
+        last = proj[-1]
+        if not isinstance(last, dict) or "n" not in last:
+            return False
+        for f in adt["variants"][0]["fields"]:
+            if f["name"] == last["n"]:
+                crate = [c for c in self.facts.crates.values() if ty["def"] in c.adts][0]
+                fs = crate.types[f["ty"]]["s"]
+                return fs == "bool" or fs.startswith("core::option::Option")
+        return False
 
     def explore_from_stmt(self, body, bb, idx, holder):
         """explore with the obligation held by `holder` from just after statement idx of block bb:
